@@ -74,82 +74,7 @@ def check(ctx, run):
         run.broke("C02.R1: the runner cannot be folded: %s" % u)
 
     # ---------------- R2 ----------------------------------------------------
-    sr = prog.fn("UtestShell::shouldRun")
-    run.analysed(sr)
-    g, nm = sr.params[0]["name"], sr.params[1]["name"]
-    bad = None
-    try:
-        for mg, mn in itertools.product((1, 0), repeat=2):
-            seen = []
-
-            def match_hook(*a_, mg=mg, mn=mn):
-                pair = tuple(a_[-2:])
-                seen.append(pair)
-                return {(("ptr", "G", 0), 81): mg, (("ptr", "N", 0), 82): mn}.get(pair)
-            ev = Evaluator(prog, sr, env={"group_": ("ptr", "G", 0), "name_": ("ptr", "N", 0), g: 81, nm: 82}, calls={"UtestShell::match": match_hook})
-            ev.run_blocks(sr.entry, max_steps=300)
-            r = getattr(ev, "ret", None)
-            if r != (1 if mg and mn else 0) and bad is None:
-                bad = "group matches=%d, name matches=%d: shouldRun returns %s" % (mg, mn, r)
-    except Unknown as u:
-        bad = "match is asked about something else than (group_, groupFilters) / (name_, nameFilters): %s; asked %s" % (u, [str(x) for x in seen])
-    run.ob("R2", "shouldRun = match(group_, groupFilters) && match(name_, nameFilters)", sr.site, bad is None, witness=bad or "folded over the 4 outcomes of the two matches",
-           what="" if bad is None else "group/name and their filter lists are not paired as documented: " + bad)
-    mf = prog.fn("UtestShell::match")
-    run.analysed(mf)
-    tname, fname = mf.params[0]["name"], mf.params[1]["name"]
-    for n in range(0, 4):
-        for outcome in itertools.product((0, 1), repeat=n):
-            ev = Evaluator(prog, mf, env={fname: (1 if n else 0), tname: 777})
-            ev.pass_object = True
-            ev.calls["TestFilter::getNext"] = lambda o, n=n: (o + 1 if o is not None and o < n else 0)
-            ev.calls["TestFilter::match"] = lambda o, t, outcome=outcome: (outcome[o - 1] if o is not None and 1 <= o <= len(outcome) else None)
-            try:
-                end, vis = ev.run_blocks(mf.entry, max_steps=500)
-                got = getattr(ev, "ret", None)
-            except Unknown as u:
-                got = "unknown: %s" % u
-            want = 1 if (n == 0 or any(outcome)) else 0
-            run.ob("R2", "match over %d filters with outcomes %s" % (n, list(outcome)), mf.site, got == want, witness={"folded": got, "oracle": want},
-                   what="" if got == want else "a test accepted by %s filter is %s" % ("some" if want else "no", "rejected" if want else "accepted"))
-    tf = prog.fn("TestFilter::match")
-    run.analysed(tf)
-    # the filter objects are built through the class's own constructor and modifiers (object_state): whatever private
-    # members hold "strict" and "inverted" is not named here
-    def filter_state(text, strict, invert):
-        return object_state(prog, "TestFilter", ["const char *"], [("str", text)], steps=([("strictMatching", [])] if strict else []) + ([("invertMatching", [])] if invert else []))
-    pn = tf.params[0]["name"]
-    try:
-        for strict, invert, equals, contains in itertools.product((0, 1), repeat=4):
-            ev = Evaluator(prog, tf, env=dict(filter_state("flt", strict, invert), **{pn: ("str", "candidate")}))
-            ev.calls["operator=="] = lambda *a, equals=equals: equals
-            ev.calls["SimpleString::contains"] = lambda *a, contains=contains: contains
-            try:
-                ev.run_blocks(tf.entry, max_steps=300)
-                got = getattr(ev, "ret", None)
-            except Unknown as u:
-                got = "unknown: %s" % u
-            want = invert ^ (equals if strict else contains)
-            run.ob("R2", "TestFilter::match(strict=%d, invert=%d, equals=%d, contains=%d)" % (strict, invert, equals, contains), tf.site, got == want, witness={"folded": got, "oracle": want})
-        okd, wit = True, []
-        for name_, filt, strict, invert, want in (("abc", "b", 0, 0, 1), ("b", "abc", 0, 0, 0), ("abc", "abc", 1, 0, 1), ("abc", "ab", 1, 0, 0), ("ab", "abc", 1, 0, 0), ("", "", 0, 0, 1),
-                                                  ("abc", "b", 0, 1, 0), ("abc", "x", 0, 1, 1), ("abc", "abc", 1, 1, 0), ("abc", "ab", 1, 1, 1)):
-            ev = Evaluator(prog, tf, env=dict(filter_state(filt, strict, invert), **{pn: ("str", name_)}), calls=string_hooks())
-            ev.pass_object = True
-            try:
-                ev.run_blocks(tf.entry, max_steps=300)
-                got = getattr(ev, "ret", None)
-            except Unknown as u:
-                got = "unknown: %s" % u
-            wit.append({"name": name_, "filter": filt, "strict": strict, "invert": invert, "folded": got, "expected": want})
-            okd = okd and got == want
-        run.ob("R2", "TestFilter::match folded on strings for filters built by the constructor and modifiers: the candidate is compared with the filter text (the NAME contains the FILTER, not the other way round)", tf.site, okd, witness=wit)
-    except Unknown as u:
-        raise AnalysisBroken("C02.R2: a TestFilter cannot be built by folding its constructor and modifiers: %s" % u)
-
-    # the substring match behind a (non-strict) filter is SimpleString::contains -> StrStr
-    from .C13 import strstr_rule
-    strstr_rule(prog, run, "R2")
+    selection_rules(prog, run, "R2")
 
     # ---------------- R3 ----------------------------------------------------
     ARR = "UtestShellPointerArray"
@@ -314,6 +239,89 @@ def check(ctx, run):
     group_balance(prog, run, "R4")
 
 
+def selection_rules(prog, run, rid):
+    """how a test is selected, folded: shouldRun = match(group, group filters) && match(name, name filters); match over every filter
+    list of up to 3 filters x every outcome (accepted iff the list is empty or SOME filter accepts - every filter is asked until one
+    does); TestFilter::match over its truth table and on strings (exact for strict filters, substring otherwise, inverted on request).
+    Shared with C12 (what the parsed -g / -n / -t options mean is decided here)."""
+    sr = prog.fn("UtestShell::shouldRun")
+    run.analysed(sr)
+    g, nm = sr.params[0]["name"], sr.params[1]["name"]
+    bad = None
+    try:
+        for mg, mn in itertools.product((1, 0), repeat=2):
+            seen = []
+
+            def match_hook(*a_, mg=mg, mn=mn):
+                pair = tuple(a_[-2:])
+                seen.append(pair)
+                return {(("ptr", "G", 0), 81): mg, (("ptr", "N", 0), 82): mn}.get(pair)
+            ev = Evaluator(prog, sr, env={"group_": ("ptr", "G", 0), "name_": ("ptr", "N", 0), g: 81, nm: 82}, calls={"UtestShell::match": match_hook})
+            ev.run_blocks(sr.entry, max_steps=300)
+            r = getattr(ev, "ret", None)
+            if r != (1 if mg and mn else 0) and bad is None:
+                bad = "group matches=%d, name matches=%d: shouldRun returns %s" % (mg, mn, r)
+    except Unknown as u:
+        bad = "match is asked about something else than (group_, groupFilters) / (name_, nameFilters): %s; asked %s" % (u, [str(x) for x in seen])
+    run.ob(rid, "shouldRun = match(group_, groupFilters) && match(name_, nameFilters)", sr.site, bad is None, witness=bad or "folded over the 4 outcomes of the two matches",
+           what="" if bad is None else "group/name and their filter lists are not paired as documented: " + bad)
+    mf = prog.fn("UtestShell::match")
+    run.analysed(mf)
+    tname, fname = mf.params[0]["name"], mf.params[1]["name"]
+    for n in range(0, 4):
+        for outcome in itertools.product((0, 1), repeat=n):
+            ev = Evaluator(prog, mf, env={fname: (1 if n else 0), tname: 777})
+            ev.pass_object = True
+            ev.calls["TestFilter::getNext"] = lambda o, n=n: (o + 1 if o is not None and o < n else 0)
+            ev.calls["TestFilter::match"] = lambda o, t, outcome=outcome: (outcome[o - 1] if o is not None and 1 <= o <= len(outcome) else None)
+            try:
+                end, vis = ev.run_blocks(mf.entry, max_steps=500)
+                got = getattr(ev, "ret", None)
+            except Unknown as u:
+                got = "unknown: %s" % u
+            want = 1 if (n == 0 or any(outcome)) else 0
+            run.ob(rid, "match over %d filters with outcomes %s" % (n, list(outcome)), mf.site, got == want, witness={"folded": got, "oracle": want},
+                   what="" if got == want else "a test accepted by %s filter is %s" % ("some" if want else "no", "rejected" if want else "accepted"))
+    tf = prog.fn("TestFilter::match")
+    run.analysed(tf)
+    # the filter objects are built through the class's own constructor and modifiers (object_state): whatever private
+    # members hold "strict" and "inverted" is not named here
+    def filter_state(text, strict, invert):
+        return object_state(prog, "TestFilter", ["const char *"], [("str", text)], steps=([("strictMatching", [])] if strict else []) + ([("invertMatching", [])] if invert else []))
+    pn = tf.params[0]["name"]
+    try:
+        for strict, invert, equals, contains in itertools.product((0, 1), repeat=4):
+            ev = Evaluator(prog, tf, env=dict(filter_state("flt", strict, invert), **{pn: ("str", "candidate")}))
+            ev.calls["operator=="] = lambda *a, equals=equals: equals
+            ev.calls["SimpleString::contains"] = lambda *a, contains=contains: contains
+            try:
+                ev.run_blocks(tf.entry, max_steps=300)
+                got = getattr(ev, "ret", None)
+            except Unknown as u:
+                got = "unknown: %s" % u
+            want = invert ^ (equals if strict else contains)
+            run.ob(rid, "TestFilter::match(strict=%d, invert=%d, equals=%d, contains=%d)" % (strict, invert, equals, contains), tf.site, got == want, witness={"folded": got, "oracle": want})
+        okd, wit = True, []
+        for name_, filt, strict, invert, want in (("abc", "b", 0, 0, 1), ("b", "abc", 0, 0, 0), ("abc", "abc", 1, 0, 1), ("abc", "ab", 1, 0, 0), ("ab", "abc", 1, 0, 0), ("", "", 0, 0, 1),
+                                                  ("abc", "b", 0, 1, 0), ("abc", "x", 0, 1, 1), ("abc", "abc", 1, 1, 0), ("abc", "ab", 1, 1, 1)):
+            ev = Evaluator(prog, tf, env=dict(filter_state(filt, strict, invert), **{pn: ("str", name_)}), calls=string_hooks())
+            ev.pass_object = True
+            try:
+                ev.run_blocks(tf.entry, max_steps=300)
+                got = getattr(ev, "ret", None)
+            except Unknown as u:
+                got = "unknown: %s" % u
+            wit.append({"name": name_, "filter": filt, "strict": strict, "invert": invert, "folded": got, "expected": want})
+            okd = okd and got == want
+        run.ob(rid, "TestFilter::match folded on strings for filters built by the constructor and modifiers: the candidate is compared with the filter text (the NAME contains the FILTER, not the other way round)", tf.site, okd, witness=wit)
+    except Unknown as u:
+        raise AnalysisBroken("C02/C12 selection: a TestFilter cannot be built by folding its constructor and modifiers: %s" % u)
+
+    # the substring match behind a (non-strict) filter is SimpleString::contains -> StrStr
+    from .C13 import strstr_rule
+    strstr_rule(prog, run, rid)
+
+
 def registry_lists(maxn=4):
     for n in range(maxn + 1):
         for gp in itertools.product("AB", repeat=n):
@@ -376,6 +384,13 @@ def registry_rules(prog, run, rid, aspect):
                     if got != want:
                         k = next((j for j in range(min(len(got), len(want))) if got[j] != want[j]), min(len(got), len(want)))
                         why = "notification #%d is %s, expected %s" % (k, got[k] if k < len(got) else "missing", want[k] if k < len(want) else "nothing")
+                    # a test's run options are in force when it is announced (an output asks the test whether it will run then)
+                    for i in range(n):
+                        if sel[i] and ("currentTestStarted", i) in log:
+                            t0 = log.index(("currentTestStarted", i))
+                            for fl_, ev_ in ((flags[0], "setRunInSeperateProcess"), (flags[1], "setRunIgnored")):
+                                if fl_ and (ev_, i) not in log[:t0]:
+                                    why = why or "test #%d is announced before %s reached it: an output that asks willRun() at the start of the test sees the old answer" % (i, ev_)
                 else:
                     for i in range(n):
                         for fi, nm in enumerate(("setRunInSeperateProcess", "setRunIgnored")):
